@@ -116,7 +116,7 @@ def _html_escape(repo):
 @item("FUEL_ZERO_COST")
 def _fuel_zero(repo):
     src = read(repo, "minijinja/src/vm/fuel.rs")
-    body = fn_body(src, r"fn fuel_for_instruction\(instruction: &Instruction\) -> isize\s*\{")
+    body = fn_body(src, r"fn fuel_for_instruction\(instruction: &Instruction\) -> \w+\s*\{")
     inner = fn_body(body, r"match instruction\s*\{")
     arms = re.split(r"=>", inner)
     # all arms but the last map to a literal; collect names of arms mapping to 0, and the default
